@@ -924,7 +924,11 @@ enum IdClass {
     Malformed,
     AltListed(u8),
     AltUnlisted(u8),
+    /// no X-Client-Id at all; the (unlisted) id travels under another header name
+    OtherHeader(u8),
 }
+
+const OTHER_ID_HEADERS: [&str; 6] = ["X-Client-Key", "Client-Id", "X-ClientId", "X-Client", "Authorization", "Cookie"];
 
 #[derive(Clone, Copy, Debug, PartialEq, Eq)]
 enum Validity {
@@ -1025,6 +1029,9 @@ pub fn shard_run_c16(tier: &str, seed: u64, replay_case: Option<usize>, shard: S
                 classes.push(IdClass::AltListed(f));
                 classes.push(IdClass::AltUnlisted(f));
             }
+            for f in 0..OTHER_ID_HEADERS.len() as u8 {
+                classes.push(IdClass::OtherHeader(f));
+            }
             let mut sub = 0usize;
             for endpoint in 0..4usize {
                 for idc in &classes {
@@ -1048,9 +1055,22 @@ pub fn shard_run_c16(tier: &str, seed: u64, replay_case: Option<usize>, shard: S
                             IdClass::Malformed => ("this-is-not-a-uuid".to_string(), 0, None),
                             IdClass::AltListed(f) => (alt_spelling(listed_id, *f), 0, Some(listed_id)),
                             IdClass::AltUnlisted(f) => (alt_spelling(unlisted_data, *f), 1, Some(unlisted_data)),
+                            IdClass::OtherHeader(_) => (unlisted_data.to_string(), 1, Some(unlisted_data)),
                         };
-                        let req = c16_request(&fx, endpoint, &idtext, owner, validity);
-                        let treq = c16_request(&twin, endpoint, &idtext, owner, validity);
+                        let mut req = c16_request(&fx, endpoint, &idtext, owner, validity);
+                        let mut treq = c16_request(&twin, endpoint, &idtext, owner, validity);
+                        if let IdClass::OtherHeader(f) = idc {
+                            let name = OTHER_ID_HEADERS[*f as usize];
+                            let val = match name {
+                                "Authorization" => format!("Bearer {idtext}"),
+                                "Cookie" => format!("client_id={idtext}"),
+                                _ => idtext.clone(),
+                            };
+                            for r in [&mut req, &mut treq] {
+                                r.headers.retain(|(k, _)| k != "X-Client-Id");
+                                r.headers.push((name.to_string(), val.as_bytes().to_vec()));
+                            }
+                        }
                         fx.hook.log.take();
                         let before = fx.dump();
                         let resp = fx.subj.http(&req);
@@ -1061,7 +1081,7 @@ pub fn shard_run_c16(tier: &str, seed: u64, replay_case: Option<usize>, shard: S
                         out.executed += 1;
                         let allowed = subject_id.map(|u| in_list(&u)).unwrap_or(false);
                         let ctx = format!("[{} list={}] {}", fx.subj.kind.name(), match list_kind { 0 => "absent", 1 => "empty", 2 => "one", _ => "many" }, req.describe());
-                        cov.hit(format!("list={}|ep={}|{:?}|{:?}|status={}|access={}", list_kind, endpoint, match idc { IdClass::AltListed(_) => IdClass::AltListed(0), IdClass::AltUnlisted(_) => IdClass::AltUnlisted(0), o => *o }, validity, resp.status, accesses > 0));
+                        cov.hit(format!("list={}|ep={}|{:?}|{:?}|status={}|access={}", list_kind, endpoint, match idc { IdClass::AltListed(_) => IdClass::AltListed(0), IdClass::AltUnlisted(_) => IdClass::AltUnlisted(0), IdClass::OtherHeader(_) => IdClass::OtherHeader(0), o => *o }, validity, resp.status, accesses > 0));
                         if cov.samples.is_empty() || (cov.samples.len() < 4 && sub % 13 == 5) {
                             cov.samples.push(json!({"context": ctx, "status": resp.status, "storage_accesses": accesses, "state_changed": changed}));
                         }
@@ -1071,7 +1091,7 @@ pub fn shard_run_c16(tier: &str, seed: u64, replay_case: Option<usize>, shard: S
                             bad = Some(format!("{ctx}: server failed: {}", resp.describe()));
                         }
                         let canonical = matches!(idc, IdClass::Listed | IdClass::UnlistedWithData | IdClass::UnlistedUnknown);
-                        let alt = matches!(idc, IdClass::AltListed(_) | IdClass::AltUnlisted(_));
+                        let alt = matches!(idc, IdClass::AltListed(_) | IdClass::AltUnlisted(_) | IdClass::OtherHeader(_));
                         if bad.is_none() {
                             if *idc == IdClass::Malformed {
                                 if !(400..500).contains(&resp.status) || accesses > 0 || changed {
